@@ -193,6 +193,18 @@ func FamilyChk(tier string) []*Scenario {
 					failName = strings.Join(failNames, "+")
 				}
 				out = append(out, &Scenario{Family: "F-chk", Name: fmt.Sprintf("chk-%s-m%02d-f%s", lv, mask, failName), Plans: []PlanSpec{ps}})
+				if nf == 1 {
+					// the same failure reported as "a (partial) response together with a permanent error": still a failure
+					tw := cloneScenario(out[len(out)-1])
+					tw.Name += "-Bp"
+					tp := &tw.Plans[0]
+					for _, c := range []*ChecksSpec{tp.Bypass, tp.Pre, tp.Cont, tp.Post, tp.Def, tp.Blocks[0].Bypass, tp.Blocks[0].Pre, tp.Blocks[0].Cont, tp.Blocks[0].Post, tp.Blocks[0].Def} {
+						if c != nil && len(c.Actions) > 0 && len(c.Actions[0].Script) > 0 && c.Actions[0].Script[0] == Perm {
+							c.Actions[0].Script[0] = RespPerm
+						}
+					}
+					out = append(out, tw)
+				}
 			}
 		}
 	}
